@@ -934,6 +934,8 @@ class ImageBatch(DataTensor):
             padding=padding,
             align_corners=align_corners,
         )
+        if len(arg) == 1:
+            arg = tuple(arg) * data.shape[0]
         return self._make_instance(data, arg)
 
     def __repr__(self) -> str:
